@@ -44,6 +44,10 @@ func (s *Session) SendMessage(ctx context.Context, r xml.TokenReader) (xmlstream
 		return nil, fmt.Errorf("expected start element to be a message")
 	}
 
+	// The attributes are changed below and the token's attribute list still
+	// belongs to the caller's reader: work on a copy.
+	start = start.Copy()
+
 	// If there's no ID, add one.
 	idx, _, id, typ := getIDTyp(start.Attr)
 	if idx == -1 {
